@@ -461,6 +461,104 @@ func c16Dictionary(c *core.Ctx, id string) {
 	c.CountNT(fmt.Sprintf("dictionary of %d distinct words lexed twice", len(words)), out, true)
 }
 
+// histories over one reused input buffer (lexer.NewBytes keeps the caller's slice: a file read chunk by chunk, a
+// scanner buffer) and the public token.ResetInterning(): tokens already delivered keep their text, equal tokens
+// delivered since the last reset are one object, keywords stay keywords
+var c16ReuseTexts = []string{"alpha1 + beta22", "gamma9 - delta00", "// c1\nx1", "// c2\ny2", "/* cc */ z", "/* dd */ w", "12345 67.5", "54321 76.5", "if len(x) { return }", "fi nel(y) [ nruter ]", "`raw` \"str\"", "`war` \"rts\""}
+
+func c16Reuse(c *core.Ctx) int {
+	type rec struct {
+		tok  *token.Token
+		typ  token.Type
+		lit  string
+		step int
+	}
+	depth := 3
+	actions := len(c16ReuseTexts) + 1 // the last one is ResetInterning
+	token.Init()
+	golden := make([]string, len(c16ReuseTexts))
+	for i, text := range c16ReuseTexts {
+		l := lexer.New(text)
+		var got []string
+		for k := 0; k < 64; k++ {
+			t := l.NextToken()
+			if t == nil || t.Type() == token.EOF {
+				break
+			}
+			got = append(got, t.Type().String()+":"+t.Literal())
+		}
+		golden[i] = strings.Join(got, " ")
+	}
+	n := 0
+	enumTuples(actions, depth, func(idx []int) bool {
+		key := fmt.Sprint(idx)
+		if !c.MineNoDedup("reuse", key) {
+			return true
+		}
+		n++
+		cs := core.Case{Kind: "reuse", Data: strings.Trim(strings.ReplaceAll(key, " ", ","), "[]")}
+		c.Current(cs)
+		v := c.Run(func() *core.Viol {
+			token.Init()
+			buf := make([]byte, 64)
+			var seen []rec
+			since := 0 // index in seen of the first token delivered after the last reset
+			for step, a := range idx {
+				if a == len(c16ReuseTexts) {
+					token.ResetInterning()
+					since = len(seen)
+				} else {
+					text := c16ReuseTexts[a]
+					for i := range buf {
+						buf[i] = ' '
+					}
+					copy(buf, text)
+					l := lexer.NewBytes(buf[:len(text)])
+					for k := 0; k < 64; k++ {
+						t := l.NextToken()
+						if t == nil || t.Type() == token.EOF {
+							break
+						}
+						seen = append(seen, rec{t, t.Type(), strings.Clone(t.Literal()), step})
+					}
+					// the text lexes as it does first thing in a process
+					var got []string
+					for _, r := range seen {
+						if r.step == step {
+							got = append(got, r.typ.String()+":"+r.lit)
+						}
+					}
+					if g := strings.Join(got, " "); g != golden[a] {
+						return &core.Viol{Class: "reuse:tokens-differ", Detail: fmt.Sprintf("step %d %q lexed as %q, first thing in a process as %q", step, text, g, golden[a]), Case: cs}
+					}
+				}
+				for i, r := range seen {
+					if r.tok.Literal() != r.lit || r.tok.Type() != r.typ {
+						return &core.Viol{Class: "reuse:delivered-token-changed", Detail: fmt.Sprintf("after step %d the token %s %q delivered at step %d reads %s %q", step, r.typ, r.lit, r.step, r.tok.Type(), r.tok.Literal()), Case: cs}
+					}
+					if i < since {
+						continue
+					}
+					for _, q := range seen[since:i] {
+						if same := q.typ == r.typ && q.lit == r.lit; same != (q.tok == r.tok) {
+							return &core.Viol{Class: "reuse:not-interned", Detail: fmt.Sprintf("%s %q (step %d) and %s %q (step %d): same object %v", q.typ, q.lit, q.step, r.typ, r.lit, r.step, q.tok == r.tok), Case: cs}
+						}
+					}
+				}
+			}
+			return nil
+		})
+		o := "reuse-ok"
+		if v != nil {
+			o = v.Class
+		}
+		c.CountNT("reuse: "+key, o, true)
+		return true
+	})
+	token.Init()
+	return n
+}
+
 func runC16(c *core.Ctx) {
 	st := &c16State{interned: map[internKey]*token.Token{}}
 	token.Init()
@@ -601,6 +699,10 @@ func runC16(c *core.Ctx) {
 				}
 			}
 		}
+	}
+	if !c.Expired() {
+		nr := c16Reuse(c)
+		bound = append(bound, fmt.Sprintf("%d histories of <=3 actions over %d texts lexed through one reused buffer (lexer.NewBytes) and token.ResetInterning()", nr, len(c16ReuseTexts)))
 	}
 	c.P.Bound = strings.Join(bound, ",") + ",long tokens of 11 kinds at lengths 2^k-1..2^k+1 (k=3..16)" + ",keywords x 30 followers x 3 prefixes; both lexer modes"
 }
